@@ -33,6 +33,16 @@ type ReplayFile struct {
 		Decisions string    `json:"decisions"`
 	} `json:"original,omitempty"`
 	Store *StoreCase `json:"store_case,omitempty"`
+	Echo  *EchoCase  `json:"echo_case,omitempty"`
+}
+
+// EchoCase: scenario From was executed, then the scenarios From+Stride ... To,
+// then scenario From again, in one process; the two executions of From differed.
+type EchoCase struct {
+	Seed   uint64 `json:"seed"`
+	From   int    `json:"from"`
+	To     int    `json:"to"`
+	Stride int    `json:"stride"`
 }
 
 func (rf *ReplayFile) Write(path string) error {
